@@ -17,6 +17,28 @@ func init() {
 	// C16: every DefaultFormatter onto caller buffers: every byte value as a prefix, prefixes made
 	// of the symbols the formatter itself emits, spare capacity 0..64, every flag subset
 	drivers["c16"] = func(d *Drv) {
+		// URN(): "urn:uuid:" followed by the plain rendering (the method builds its own buffer)
+		nU := 400
+		if d.Thorough() {
+			nU = 20000
+		}
+		for i := 0; i < nU; i++ {
+			id := randID(d)
+			switch i % 8 {
+			case 0:
+				id = make([]int, 32)
+			case 1:
+				for j := range id[:16+i%16] {
+					id[j] = 0
+				}
+			case 2:
+				for j := range id {
+					id[j] = 15
+				}
+			}
+			d.Do(Ev{"op": "uu.fmt", "id": id})
+		}
+		d.S.Boundary()
 		type tgt struct {
 			pkg   string
 			flags int
@@ -426,5 +448,45 @@ func init() {
 			d.Do(Ev{"op": "recv.call", "pkg": p.pkg, "kind": kind, "in": B(fuzz(p)), "pre": pre})
 			d.S.Boundary()
 		}
+		// megabyte inputs ("very long runs"): described by their shape, see ops_giant.go
+		type shape struct {
+			pkg, unit, sa, sb string
+		}
+		shapes := []shape{
+			{"sem.cmp", "a.", "10", "9.1"}, {"sem.cmp", "a.", "x", "x"}, {"sem.cmp", "1.", "1", "a"}, {"sem.cmp", "0.B-.", "b", "a.1"}, {"sem.cmp", "a.", "a", "a.1"},
+			{"roman", "M", "", ""}, {"roman", "I", "M", "X"}, {"roman", "mdclxvi", "", ""},
+			{"date", "9", "", ""}, {"date", "0", "2024-01-", ""}, {"date", "-", "2024", "01"},
+			{"sem", "a.", "1.2.3-", "a"}, {"sem", "1", "", ""}, {"sem", "0", "1.2.3-", ""}, {"sem", ".", "1", "2"},
+			{"size", "9", "", ""}, {"size", " ", "1", "0"}, {"size", "\u00a0", "1", "0 KiB"}, {"size", "0", "", "1B"}, {"size", "[", "", ""}, {"size", "{\"a\":", "", "1"},
+			{"uu", "a", "urn:uuid:", ""}, {"uu", "-", "", ""}, {"uu", "0", "", ""},
+		}
+		k := 0
+		for si, sh := range shapes {
+			ns := []int{1 << 17}
+			if sh.pkg == "sem.cmp" {
+				ns = []int{1 << 16}
+				if si == 0 || d.Thorough() {
+					ns = append(ns, 10000000) // beyond what a 1 GiB goroutine stack holds at one small frame per identifier
+				}
+			}
+			if d.Thorough() {
+				ns = append(ns, 1<<22)
+			}
+			for _, n := range ns {
+				// no limit, the default-sized limit, a limit of exactly the input's length, one below it
+				l := len(sh.sa) + n*len(sh.unit) + len(sh.sb)
+				for _, max := range []int{0, 128, l, l - 1} {
+					if sh.pkg == "sem.cmp" && max != 0 {
+						continue
+					}
+					k++
+					if !d.Mine(k) {
+						continue
+					}
+					d.Do(Ev{"op": "giant", "pkg": sh.pkg, "unit": B(sh.unit), "n": n, "sa": B(sh.sa), "sb": B(sh.sb), "max": max, "T": []string{"s", "b"}[k%2]})
+				}
+			}
+		}
+		d.S.Boundary()
 	}
 }
